@@ -4,6 +4,8 @@
 //   W  nacts  (kind i j v)*nacts  out  angle[(W+1)^2] phase[(W+1)^2] energy[W+1]      kind: 0 angle 1 phase 2 energy
 // stdout: MISMATCH lines, then DONE n nmis
 #include <SQuIDS/const.h>
+#include <gsl/gsl_matrix.h>
+#include <gsl/gsl_complex_math.h>
 #include <cstdio>
 #include <iostream>
 #include <vector>
@@ -20,6 +22,21 @@ int main() {
       threw = false;
       try { if (k == 0) c.SetMixingAngle(i, j, val(v)); else if (k == 1) c.SetPhase(i, j, val(v)); else c.SetEnergyDifference(i, val(v)); }
       catch (std::exception&) { threw = true; }
+      // reads between the writes: the mixing matrix is a function of the stored parameters, asking for it changes nothing
+      for (unsigned d = 2; d <= 6; d++) { auto U = c.GetTransformationMatrix(d); (void)U; }
+    }
+    {
+      Const f;      // a fresh store given the final parameters only
+      for (unsigned j = 1; j < 6; j++) for (unsigned i = 0; i < j; i++) { f.SetMixingAngle(i, j, c.GetMixingAngle(i, j)); f.SetPhase(i, j, c.GetPhase(i, j)); }
+      for (unsigned d = 2; d <= 6; d++) {
+        auto U = c.GetTransformationMatrix(d), V = f.GetTransformationMatrix(d);
+        bool same = U->size1 == d && U->size2 == d;
+        for (unsigned a = 0; a < d && same; a++) for (unsigned b = 0; b < d; b++) {
+          gsl_complex x = gsl_matrix_complex_get(U.get(), a, b), y = gsl_matrix_complex_get(V.get(), a, b);
+          if (GSL_REAL(x) != GSL_REAL(y) || GSL_IMAG(x) != GSL_IMAG(y)) { same = false; break; }
+        }
+        if (!same) { printf("MISMATCH %ld GetTransformationMatrix(%u) differs from the matrix of a fresh store holding the same parameters\n", n, d); nmis++; }
+      }
     }
     std::string out; std::cin >> out;
     if (threw != (out == "rt")) { printf("MISMATCH %ld last-call-outcome threw=%d expected=%s\n", n, (int)threw, out.c_str()); nmis++; }
